@@ -284,16 +284,16 @@ class Body:
                     d = s["dst"]
                     if not d["p"]:
                         defs[d["l"]].append((i, si, "rv", s["rv"]))
-                    else:
+                    elif d["p"][0] != "*":
                         partial[d["l"]].append((i, si, s))
-                elif s["k"] == "setdiscr":
+                elif s["k"] == "setdiscr" and (not s["dst"]["p"] or s["dst"]["p"][0] != "*"):
                     partial[s["dst"]["l"]].append((i, si, s))
             t = b["term"]
             if t["k"] == "call":
                 d = t["dst"]
                 if not d["p"]:
                     defs[d["l"]].append((i, "term", "call", t))
-                else:
+                elif d["p"][0] != "*":
                     partial[d["l"]].append((i, "term", t))
         self._defs = defs
         self.partial = partial
@@ -554,3 +554,39 @@ class Facts:
             for i, t in b.calls():
                 if any(pred(q) for q in Body.callee_qs(t)):
                     yield b, i, t
+
+
+def same_expr(a, b, depth=0):
+    """Structural equality of two origin expressions (conservative: False when unsure)."""
+    if a is None or b is None or depth > 25:
+        return False
+    a = peel(a, through_try=False)
+    b = peel(b, through_try=False)
+    if a is b:
+        return True
+    if a.k != b.k:
+        return False
+    k = a.k
+    if k == "param":
+        return a.idx == b.idx
+    if k == "const":
+        return a.v is not None and a.v == b.v and a.q == b.q
+    if k == "field":
+        return a.idx == b.idx and a.owner == b.owner and same_expr(a.a, b.a, depth + 1)
+    if k == "downcast":
+        return a.variant == b.variant and same_expr(a.a, b.a, depth + 1)
+    if k in ("deref", "ref", "cast", "discr"):
+        return same_expr(a.a, b.a, depth + 1)
+    if k == "index":
+        return same_expr(a.a, b.a, depth + 1) and same_expr(a.b, b.b, depth + 1)
+    if k == "call":
+        if a.bb is not None and a.bb == b.bb and a.q == b.q:
+            return True
+        return False
+    if k == "bin":
+        return a.op == b.op and same_expr(a.a, b.a, depth + 1) and same_expr(a.b, b.b, depth + 1)
+    if k == "un":
+        return a.op == b.op and same_expr(a.a, b.a, depth + 1)
+    if k in ("local", "multi"):
+        return a.local == b.local
+    return False
